@@ -1,4 +1,5 @@
 import Uft.Gen.Stubs
+import Uft.Gen.HookShape
 import Uft.Lemmas.Asm
 /- C01 — Tracing never changes what the traced program computes: the stubs. -/
 namespace Uft.C01
@@ -288,5 +289,11 @@ theorem c01_entry_vec_partial (env : Env) (m : M) (i : Nat)
     have e1 : (exec env (post fentry) Q).xlo i = Q.xlo i ∧ (exec env (post fentry) Q).xhi i = Q.xhi i := by
       simp [post, fentry, exec_cons, step]
     exact ⟨e1.1.trans (this.1.trans hp.1), e1.2.trans (this.2.trans hp.2)⟩
+
+/-- every exported C hook saves `errno` before doing anything else and restores
+    it before every return (shape facts regenerated from the sources) -/
+theorem c01_hooks_preserve_errno :
+    ∀ h ∈ Uft.Gen.HookShape.hooks, h.found = true ∧ h.savesErrnoFirst = true ∧ h.restoresBeforeReturn = true := by
+  decide
 
 end Uft.C01
